@@ -106,6 +106,32 @@ def factorize {R : Type} (O : ValOps R) (cheb : Bool) (n : Nat) (p : List R) : L
 /-- the guard of `bignum.Polynomial.Factorize(n)`: `if n < (p.Degree()+1)>>1 { panic }` -/
 def factorizeGuard (n : Nat) (len : Nat) : Bool := n < (len - 1 + 1) / 2
 
+/-- the coefficient filter of `Factorize` / `EvaluatePolynomialVectorFromPowerBasis` under the flags
+    `IsOdd`, `IsEven`: `!(even || odd) || (i&1 == 0 && even) || (i&1 == 1 && odd)` -/
+def useIdx (odd even : Bool) (i : Nat) : Bool :=
+  !(even || odd) || (i % 2 == 0 && even) || (i % 2 == 1 && odd)
+
+/-- `bignum.Polynomial.Factorize(n)` under flags `IsOdd`, `IsEven` as the user may set them.  With
+    `IsOdd = IsEven` (both set: the constructor's default; both cleared) no coefficient is skipped: this
+    is `factorize`.  With exactly one flag the coefficients `p_i`, `i > n`, of the other parity are
+    skipped: the quotient entry stays absent (read as 0) and the Chebyshev remainder is not corrected. -/
+def factorizeF {R : Type} (O : ValOps R) (cheb odd even : Bool) (n : Nat) (p : List R) : List R × List R :=
+  if odd == even then factorize O cheb n p
+  else
+    let z := O.ofNat 0
+    let hi := p.drop n
+    let q := match hi with
+      | [] => []
+      | c :: cs => c :: (List.range cs.length).map fun j =>
+          -- entry j+1 of the quotient comes from p_{n+j+1}
+          if useIdx odd even (n + j + 1) then
+            (if cheb then O.mul (O.ofNat 2) (cs.getD j z) else cs.getD j z)
+          else z
+    let r := if !cheb then p.take n else (List.range n).map fun i =>
+      let base := p.getD i z
+      if 2 * n - i < p.length ∧ n - i ≥ 1 ∧ useIdx odd even (2 * n - i) = true then O.sub base (p.getD (2 * n - i) z) else base
+    (q, r)
+
 /-- the split power chosen by `recursePS`: `nextPower = 1 << logSplit; for nextPower < (deg>>1)+1 { <<= 1 }` -/
 def nextPowerLoop (deg : Nat) : Nat → Nat → Nat
   | 0, np => np
@@ -136,6 +162,12 @@ structure Env where
   q : List Nat         -- q_l mod t, l = 0..L  (bgv)
   cheb : Bool
   slots : Nat
+  /-- `bgv.Evaluator.ScaleInvariant` (BFV-style tensoring: `Rescale` is a no-op, no level is consumed) -/
+  inv : Bool := false
+  /-- the flags `IsOdd`, `IsEven` of the polynomial(s) as the evaluator sees them (the constructor sets
+      both; a user may clear one — or both) -/
+  odd : Bool := true
+  even : Bool := true
 
 structure Opd where
   level : Int
@@ -166,6 +198,17 @@ def mulS (env : Env) (a b : Nat) : Nat := if env.t = 0 then 0 else a * b % env.t
 def divS (env : Env) (a b : Nat) : Nat := if env.t = 0 then 0 else a * invMod env.t b % env.t
 def qAt (env : Env) (l : Int) : Nat := if l < 0 then 0 else env.q.getD l.toNat 0
 
+/-- `T - (Q_level mod T)` with `Q_level = q_0 ⋯ q_level` (`MulScaleInvariant`, `UpdateLevelAndScaleGiantStep`),
+    as a scale, i.e. modulo `t` -/
+def negQ (env : Env) (l : Int) : Nat :=
+  if env.t = 0 ∨ l < 0 then 0
+  else (env.t - ((env.q.take (l.toNat + 1)).foldl (fun acc x => acc * x % env.t) (1 % env.t))) % env.t
+
+/-- scale of a ciphertext–ciphertext product at level `l`: the product, divided by `-Q_l` in the
+    scale-invariant mode -/
+def mulScale (env : Env) (a b : Nat) (l : Int) : Nat :=
+  if env.inv then divS env (mulS env a b) (negQ env l) else mulS env a b
+
 def redV (env : Env) (x : Int) : Int := if env.t = 0 then 0 else x % (env.t : Int)
 
 def showOpd (env : Env) (o : Opd) : String :=
@@ -183,11 +226,13 @@ def hasP (n : Nat) : M Bool := do pure (((← get).pb.find? (·.1 == n)).isSome)
 def setP (n : Nat) (o : Opd) : M Unit :=
   modify fun st => { st with pb := (n, o) :: st.pb.filter (·.1 != n) }
 
-/-- `eval.Rescale(ct, ct)`: error at level 0 -/
+/-- `eval.Rescale(ct, ct)`: error at level 0; a no-op (that cannot fail) in the scale-invariant mode -/
 def rescaleOp (env : Env) (o : Opd) : M Opd := do
   log s!"rescale({showOpd env o})"
-  if o.level ≤ 0 then throw "err"
-  pure { o with level := o.level - 1, scale := divS env o.scale (qAt env o.level) }
+  if env.inv then pure o
+  else
+    if o.level ≤ 0 then throw "err"
+    pure { o with level := o.level - 1, scale := divS env o.scale (qAt env o.level) }
 
 def relinOp (env : Env) (o : Opd) : M Opd := do
   log s!"relin({showOpd env o})"
@@ -195,11 +240,17 @@ def relinOp (env : Env) (o : Opd) : M Opd := do
 
 def zipV (f : Int → Int → Int) (a b : List Int) : List Int := List.zipWith f a b
 
-/-- `MulNew` / `MulRelinNew` / `Mul` of two ciphertexts -/
+/-- `MulNew` / `MulRelinNew` / `Mul` of two ciphertexts; the first one must have degree at least 1 (the
+    accumulator `EvaluatePolynomialVectorFromPowerBasis` allocates for a one-coefficient polynomial flagged
+    even-and-not-odd has degree 0) -/
 def mulOp (env : Env) (name : String) (relin : Bool) (a b : Opd) : M Opd := do
   log s!"{name}({showOpd env a},{showOpd env b})"
+  -- "op0 must be of degree at least 1 (a plaintext operand is expected as op1)"
+  if a.deg = 0 && env.t != 0 then throw "err"       -- bgv only: ckks multiplies a degree-0 operand
+  -- "op0 and op1 total degree cannot exceed 2" (a power the caller generated lazily and left at degree 2)
+  if a.deg + b.deg > 2 then throw "err"
   let v := zipV (fun x y => redV env (x * y)) a.val b.val
-  pure { level := min a.level b.level, scale := mulS env a.scale b.scale,
+  pure { level := min a.level b.level, scale := mulScale env a.scale b.scale (min a.level b.level),
          deg := if relin then 1 else a.deg + b.deg, val := v }
 
 def addCt (env : Env) (name : String) (sub : Bool) (a b : Opd) : M Opd := do
@@ -272,6 +323,14 @@ structure SimOpd where
   level : Int
   scale : Nat
 
+/-- `simEvaluator.Rescale`: one level and the prime `q_level`; nothing in the scale-invariant mode -/
+def simRescale (env : Env) (o : SimOpd) : SimOpd :=
+  if env.inv then o else { level := o.level - 1, scale := divS env o.scale (qAt env o.level) }
+
+/-- `simEvaluator.MulNew` -/
+def simMul (env : Env) (a b : SimOpd) : SimOpd :=
+  { level := min a.level b.level, scale := mulScale env a.scale b.scale (min a.level b.level) }
+
 /-- `SimPowerBasis.GenPower(n)`: every call recomputes `d[n] = Rescale(MulNew(d[a], d[b]))` -/
 def simGenPower (env : Env) : Nat → Nat → List (Nat × SimOpd) → List (Nat × SimOpd)
   | 0, _, d => d
@@ -283,9 +342,7 @@ def simGenPower (env : Env) : Nat → Nat → List (Nat × SimOpd) → List (Nat
       let d := simGenPower env fuel b d
       match d.find? (·.1 == a), d.find? (·.1 == b) with
       | some (_, oa), some (_, ob) =>
-        let lvl := min oa.level ob.level
-        let sc := mulS env oa.scale ob.scale
-        (n, { level := lvl - 1, scale := divS env sc (qAt env lvl) }) :: d.filter (·.1 != n)
+        (n, simRescale env (simMul env oa ob)) :: d.filter (·.1 != n)
       | _, _ => d
 
 /-- a sub-polynomial of the decomposition (one per polynomial of the vector: `coeffs` is the list of
@@ -301,11 +358,24 @@ def SubPoly.degree (p : SubPoly) : Nat := (p.coeffs.headD []).length - 1
 
 /-- `Polynomial.Factorize(n)` on every polynomial of the vector -/
 def SubPoly.factorize (env : Env) (p : SubPoly) (n : Nat) : SubPoly × SubPoly :=
-  let qs := p.coeffs.map fun c => (PolyEval.factorize intOps env.cheb n c).1
-  let rs := p.coeffs.map fun c => (PolyEval.factorize intOps env.cheb n c).2
+  let qs := p.coeffs.map fun c => (PolyEval.factorizeF intOps env.cheb env.odd env.even n c).1
+  let rs := p.coeffs.map fun c => (PolyEval.factorizeF intOps env.cheb env.odd env.even n c).2
   ({ coeffs := qs, maxDeg := p.maxDeg, lead := p.lead },
    { coeffs := rs, lead := false,
      maxDeg := if p.maxDeg == p.degree then n - 1 else p.maxDeg - (p.degree - n + 1) })
+
+/-- `simEvaluator.PolynomialDepth(degree)` -/
+def simDepth (env : Env) (degree : Nat) : Nat := if env.inv then 0 else polynomialDepth degree
+
+/-- `UpdateLevelAndScaleBabyStep` (scale) -/
+def babyScale (env : Env) (lead : Bool) (targetLevel : Int) (outScale : Nat) : Nat :=
+  if !env.inv && lead then mulS env outScale (qAt env targetLevel) else outScale
+
+/-- `UpdateLevelAndScaleGiantStep`: `(tLevelNew, tScaleNew)` -/
+def giantLevelScale (env : Env) (lead : Bool) (targetLevel : Int) (outScale xpowScale : Nat) : Int × Nat :=
+  let s := divS env outScale xpowScale
+  if env.inv then (targetLevel, mulS env s (negQ env targetLevel))
+  else (targetLevel + 1, mulS env s (if lead then qAt env targetLevel else qAt env (targetLevel + 1)))
 
 /-- `recursePS`; `none` = run-time panic (missing power, scale check) -/
 def recursePS (env : Env) (pb : List (Nat × SimOpd)) :
@@ -317,7 +387,7 @@ def recursePS (env : Env) (pb : List (Nat × SimOpd)) :
         recursePS env pb fuel (optimalSplit (bitLen p.degree)) targetLevel p outScale
       else
         -- UpdateLevelAndScaleBabyStep
-        let sc := if p.lead then mulS env outScale (qAt env targetLevel) else outScale
+        let sc := babyScale env p.lead targetLevel outScale
         some ([{ p with level := targetLevel, scale := sc }], { level := targetLevel, scale := sc })
     else
       let np := nextPower logSplit p.degree
@@ -325,15 +395,12 @@ def recursePS (env : Env) (pb : List (Nat × SimOpd)) :
       | none => none
       | some (_, xpow) =>
         let (cq, cr) := p.factorize env np
-        -- UpdateLevelAndScaleGiantStep
-        let qi := if p.lead then qAt env targetLevel else qAt env (targetLevel + 1)
-        let tScaleNew := mulS env (divS env outScale xpow.scale) qi
-        match recursePS env pb fuel logSplit (targetLevel + 1) cq tScaleNew with
+        let (tLevelNew, tScaleNew) := giantLevelScale env p.lead targetLevel outScale xpow.scale
+        match recursePS env pb fuel logSplit tLevelNew cq tScaleNew with
         | none => none
         | some (bq, res) =>
           -- Rescale(res); res = MulNew(res, XPow)
-          let res1 : SimOpd := { level := res.level - 1, scale := divS env res.scale (qAt env res.level) }
-          let res2 : SimOpd := { level := min res1.level xpow.level, scale := mulS env res1.scale xpow.scale }
+          let res2 := simMul env (simRescale env res) xpow
           match recursePS env pb fuel logSplit targetLevel cr res2.scale with
           | none => none
           | some (br, tmp) => if tmp.scale != res2.scale then none else some (bq ++ br, res2)
@@ -350,34 +417,41 @@ def coeffVec (env : Env) (mapping : Option (List (List Nat))) (coeffs : List (Li
       -- later polynomials overwrite earlier ones on a shared slot
       ((m.zip coeffs).foldl (fun acc mc => if mc.1.contains j then mc.2.getD k 0 else acc) 0)
 
-/-- `EvaluatePolynomialVectorFromPowerBasis` (flags `IsEven = IsOdd = true`: every coefficient used) -/
+/-- `maximumCiphertextDegree`: the largest ciphertext degree among the stored powers `1..deg` -/
+def maxCtDeg (pb : List (Nat × Opd)) (deg : Nat) : Nat :=
+  (List.range (deg + 1)).foldl (fun acc i =>
+    if i = 0 then acc else match pb.find? (·.1 == i) with
+      | some (_, o) => max acc o.deg
+      | none => acc) 0
+
+/-- `EvaluatePolynomialVectorFromPowerBasis`.  The constant coefficient is added only under `IsEven`;
+    the powers `key = deg … 1` are used when `useIdx odd even key`. -/
 def evalFromPowerBasis (env : Env) (mapping : Option (List (List Nat))) (targetLevel : Int)
     (p : SubPoly) (targetScale : Nat) : M Opd := do
   let deg := p.degree
+  -- `len(Coeffs) - 1`, one less for an even (and not odd) polynomial; may be -1
+  let len1 : Int := ((p.coeffs.headD []).length : Int) - 1
+  let minDeg : Int := if env.even && !env.odd then len1 - 1 else len1
   let st ← get
-  let maxCtDeg := (List.range (deg + 1)).foldl (fun acc i =>
-    if i = 0 then acc else match st.pb.find? (·.1 == i) with
-      | some (_, o) => max acc o.deg
-      | none => acc) 0
   let zero := List.replicate env.slots (0 : Int)
-  if deg = 0 then
+  if minDeg = 0 then
     let res : Opd := { level := targetLevel, scale := targetScale, deg := 1, val := zero }
-    addConst env res (coeffVec env mapping p.coeffs 0)
+    if env.even then addConst env res (coeffVec env mapping p.coeffs 0) else pure res
   else
-    let mut res : Opd := { level := targetLevel, scale := targetScale, deg := maxCtDeg, val := zero }
-    res ← addConst env res (coeffVec env mapping p.coeffs 0)
-    for i in [0:deg] do
+    let res : Opd := { level := targetLevel, scale := targetScale, deg := maxCtDeg st.pb deg, val := zero }
+    let res ← if env.even then addConst env res (coeffVec env mapping p.coeffs 0) else pure res
+    (List.range deg).foldlM (fun res i => do
       let key := deg - i
-      let x ← getP key
-      res ← mulThenAddConst env x (coeffVec env mapping p.coeffs key) res
-    pure res
+      if useIdx env.odd env.even key then
+        let x ← getP key
+        mulThenAddConst env x (coeffVec env mapping p.coeffs key) res
+      else pure res) res
 
 /-- `EvaluateMonomial(a, b, xpow)`: `b = Rescale(Relin(b)) * xpow + a` -/
 def evalMonomial (env : Env) (a b xpow : Opd) : M Opd := do
-  let mut b := b
-  if b.deg == 2 then b ← relinOp env b
-  b ← rescaleOp env b
-  b ← mulOp env "mul" false b xpow
+  let b ← if b.deg == 2 then relinOp env b else pure b
+  let b ← rescaleOp env b
+  let b ← mulOp env "mul" false b xpow
   if env.t != 0 && a.scale != b.scale then throw "err"
   addCt env "add" false b a
 
@@ -408,49 +482,106 @@ def giantLoop (env : Env) : Nat → List (Nat × Opd) → M (List (Nat × Opd))
       let l' ← giantPass env (l.length + 1) none l
       giantLoop env fuel l'
 
-/-- `Evaluator.Evaluate` on a fresh power basis holding the input at index 1 -/
-def evaluate (env : Env) (polys : List (List Int)) (mapping : Option (List (List Nat)))
-    (lazy : Bool) (inLevel : Nat) (inScale targetScale : Nat) (x : List Int) : M Opd := do
-  let deg := (polys.headD []).length - 1
-  setP 1 { level := inLevel, scale := inScale, deg := 1, val := x }
-  -- a constant polynomial consumes no level: the encoding of its coefficient at the target scale
-  if deg = 0 then
-    return ← evalFromPowerBasis env mapping inLevel { coeffs := polys, maxDeg := 0, lead := true } targetScale
-  -- depth check
-  if inLevel < depthCheck deg then throw "err"
+/-- the powers `Evaluate` generates: `GenPower(2^(logDegree-1), false)`, then `GenPower(i, lazy)` for
+    `i = 2^logSplit - 1 … 3` of the parities selected by the flags -/
+def genPowers (env : Env) (deg : Nat) (lazy : Bool) : M Unit := do
   let logDegree := bitLen deg
   let logSplit := optimalSplit logDegree
   genPowerTop env (2 * deg + 8) (2 ^ (logDegree - 1)) false
-  for k in [0:2 ^ logSplit] do
+  (List.range (2 ^ logSplit)).forM fun k => do
     let i := 2 ^ logSplit - 1 - k
-    if i > 2 then genPowerTop env (2 * deg + 8) i lazy
-  -- simulation
+    if i > 2 && useIdx env.odd env.even i then genPowerTop env (2 * deg + 8) i lazy
+
+/-- the simulated power basis of `PatersonStockmeyerPolynomial` (every power, whatever the flags) -/
+def simPowers (env : Env) (deg : Nat) (inLevel : Int) (inScale : Nat) : List (Nat × SimOpd) :=
+  let logDegree := bitLen deg
+  let logSplit := optimalSplit logDegree
   let spb0 : List (Nat × SimOpd) := [(1, { level := inLevel, scale := inScale })]
   let spb1 := simGenPower env (2 * deg + 8) (2 ^ logDegree) spb0
-  let spb := (List.range (2 ^ logSplit)).foldl (fun d k =>
+  (List.range (2 ^ logSplit)).foldl (fun d k =>
     let i := 2 ^ logSplit - 1 - k
     if i > 2 then simGenPower env (2 * deg + 8) i d else d) spb1
-  let p0 : SubPoly := { coeffs := polys, maxDeg := deg, lead := true }
-  match recursePS env spb (2 * deg + 8) logSplit ((inLevel : Int) - polynomialDepth deg) p0 targetScale with
-  | none => throw "panic"
-  | some (subs, _) =>
-    -- baby steps: babySteps[split-i-1] = EvaluateBabyStep(i)
-    let mut bs : List (Nat × Opd) := []
-    for sp in subs do
-      let v ← evalFromPowerBasis env mapping sp.level sp sp.scale
-      bs := (sp.degree, v) :: bs
-    let fin ← giantLoop env (subs.length + 2) bs
-    match fin with
-    | [(_, v)] =>
-      let v ← if v.deg == 2 then relinOp env v else pure v
-      rescaleOp env v
-    | _ => throw "panic"
+
+/-- the final step of `EvaluatePatersonStockmeyerPolynomialVector` -/
+def finish (env : Env) (fin : List (Nat × Opd)) : M Opd :=
+  match fin with
+  | [(_, v)] => do
+    let v ← if v.deg == 2 then relinOp env v else pure v
+    rescaleOp env v
+  | _ => throw "panic"
+
+/-- `Evaluator.Evaluate` on the power basis of the state (which holds at least the input at index 1:
+    a fresh basis for a ciphertext input, the caller's for `EvaluateFromPowerBasis`) -/
+def evaluateFrom (env : Env) (polys : List (List Int)) (mapping : Option (List (List Nat)))
+    (lazy : Bool) (targetScale : Nat) : M Opd := do
+  let deg := (polys.headD []).length - 1
+  let x1 ← getP 1
+  let inLevel := x1.level
+  -- a constant polynomial consumes no level: the encoding of its coefficient at the target scale
+  if deg = 0 then
+    evalFromPowerBasis env mapping inLevel { coeffs := polys, maxDeg := 0, lead := true } targetScale
+  else
+    -- depth check (`levelsConsumedPerRescaling = 1`, also in the scale-invariant mode)
+    if inLevel < depthCheck deg then throw "err"
+    genPowers env deg lazy
+    let logSplit := optimalSplit (bitLen deg)
+    let spb := simPowers env deg inLevel x1.scale
+    let p0 : SubPoly := { coeffs := polys, maxDeg := deg, lead := true }
+    match recursePS env spb (2 * deg + 8) logSplit (inLevel - simDepth env deg) p0 targetScale with
+    | none => throw "panic"
+    | some (subs, _) =>
+      -- baby steps: babySteps[split-i-1] = EvaluateBabyStep(i)
+      let bs ← subs.foldlM (fun bs sp => do
+        let v ← evalFromPowerBasis env mapping sp.level sp sp.scale
+        pure ((sp.degree, v) :: bs)) []
+      let fin ← giantLoop env (subs.length + 2) bs
+      finish env fin
+
+/-- `Evaluator.Evaluate` on a ciphertext: a fresh power basis holding the input at index 1 -/
+def evaluate (env : Env) (polys : List (List Int)) (mapping : Option (List (List Nat)))
+    (lazy : Bool) (inLevel : Nat) (inScale targetScale : Nat) (x : List Int) : M Opd := do
+  setP 1 { level := inLevel, scale := inScale, deg := 1, val := x }
+  evaluateFrom env polys mapping lazy targetScale
 
 /-- run: `(trace, status, final operand)`; the trace survives an error -/
 def run (env : Env) (polys : List (List Int)) (mapping : Option (List (List Nat)))
     (lazy : Bool) (inLevel : Nat) (inScale targetScale : Nat) (x : List Int) :
     List String × String × Option Opd :=
   let (r, st) := (ExceptT.run (evaluate env polys mapping lazy inLevel inScale targetScale x)).run ({} : St)
+  match r with
+  | .ok o => (st.tr, "ok", some o)
+  | .error e => (st.tr, e, none)
+
+/-! ### `EvaluateFromPowerBasis` on a basis the caller filled -/
+
+/-- how the caller filled the basis before the call -/
+inductive PreOp where
+  /-- `pb.GenPower(n, lazy, eval)` -/
+  | gen (n : Nat) (lazy : Bool)
+  /-- `pb.Value[n] =` a fresh encryption of `x^n` at the given level and scale -/
+  | fresh (n : Nat) (level : Nat) (scale : Nat)
+
+/-- slot-wise `x^n` (mod `t`) -/
+def powV (env : Env) (x : List Int) (n : Nat) : List Int := x.map fun a => redV env (a ^ n)
+
+def preFill (env : Env) (x : List Int) : List PreOp → M Unit
+  | [] => pure ()
+  | .gen n lazy :: rest => do genPowerTop env (2 * n + 8) n lazy; preFill env x rest
+  | .fresh n level scale :: rest => do
+    setP n { level := level, scale := scale, deg := 1, val := powV env x n }
+    preFill env x rest
+
+/-- `EvaluateFromPowerBasis(pb, p, targetScale)`: the basis holds the input at index 1 and whatever
+    `pre` put there; the trace is the one of the call itself -/
+def runFrom (env : Env) (pre : List PreOp) (polys : List (List Int)) (mapping : Option (List (List Nat)))
+    (lazy : Bool) (inLevel : Nat) (inScale targetScale : Nat) (x : List Int) :
+    List String × String × Option Opd :=
+  let m : M Opd := do
+    setP 1 { level := inLevel, scale := inScale, deg := 1, val := x }
+    preFill env x pre
+    modify fun st => { st with tr := [] }
+    evaluateFrom env polys mapping lazy targetScale
+  let (r, st) := (ExceptT.run m).run ({} : St)
   match r with
   | .ok o => (st.tr, "ok", some o)
   | .error e => (st.tr, e, none)
